@@ -387,7 +387,7 @@ func init() {
 						return
 					}
 				}
-				w.Class("faithful")
+				w.Class(fmt.Sprintf("faithful:block-%d", pos))
 				w.NontrivialByIndex()
 				if w.WantSample(fmt.Sprint(pos)) {
 					w.Sample(fmt.Sprint(pos), map[string]string{"source": src, "position": fmt.Sprint(pos), "printed": strings.Join(el, " ; ")})
